@@ -323,6 +323,11 @@ class Node(
             # behind in the parent
             if self.parent is not None:
                 self.parent.remove_child(self)
+            else:
+                # ... nor, for an orphan, in the connection lists of the channels an
+                # earlier keyword connected it to
+                with contextlib.suppress(Exception):
+                    self.disconnect()
             raise
 
     @classmethod
